@@ -126,12 +126,23 @@ def classify_k4(mode, ref, got):
             for k, s_, cap in recd["cands"]:
                 cands[(k, s_)] = cands.get((k, s_), False) or cap
             if obs is not None and obs in cands and (exp is None or exp in cands):
-                if (exp is None and cands[obs]) or (exp is not None and cands[obs] != cands[exp]):
+                oc = cands[obs]
+                ec = cands[exp] if exp is not None else None
+                if exp is None and oc:
+                    # a captured frame shows where nothing is bound
                     k4 = True
-                # both captured: the merged layer is built by dict.update in an order that lets the copy of an
+                elif exp is not None and oc and not ec and (exp[0] == "data" or obs[0] == "for"):
+                    # (a) the captured layer lands above the inner component's data; (e) the copy of an ENCLOSING loop
+                    # (every forloop layer of the Context is copied into the captured layer) beats an outer binding
+                    # that is nearer than that loop, e.g. {% for z %}{% with z=.. %}{% component %}{% fill %}{{ z }}
+                    k4 = True
+                elif exp is not None and ec and not oc and recd.get("lexical"):
+                    # (c) lexical scoping (isolated / only): the captured layer is inserted below layers of the outer template
+                    k4 = True
+                # (b) both captured: the merged layer is built by dict.update in an order that lets the copy of an
                 # ENCLOSING loop overwrite a same-named binding made between the tag and the fill, and in isolated
                 # mode it is inserted below the layers of the loops it copies
-                elif exp is not None and cands[obs] and cands[exp] and obs[0] == "for" and obs != exp:
+                elif exp is not None and oc and ec and obs[0] == "for" and obs != exp:
                     k4 = True
             # the captured layer also lands below the alias layer of an ENCLOSING fill that is still being rendered: a
             # slot-data alias of that fill, named like the variable, shows through instead of the nearer captured binding
@@ -268,10 +279,36 @@ def outcome(env, prog, mode, which):
     return prob[0] if prob else None
 
 
+def add_between_collision(prog, rng):
+    """Appends the plainest form of 'bound between the tag and the fill': a page-level component whose fill sits in a
+    {% for %} that re-binds a name of the page context, filling a slot of a class that returns little or no data."""
+    import json as _json
+
+    cands = []
+    for cname, spec in prog["classes"].items():
+        names = sorted(set(__import__("re").findall(r'\["slot", \["lit", "(\w+)"\]', _json.dumps(spec["template"]))))
+        if names:
+            cands.append((cname, names))
+    if not cands:
+        return
+    cname, names = rng.choice(cands)
+    if rng.random() < 0.6:
+        # no data of its own (get_context_data() returns {}); the loop lists used by its template stay
+        prog["classes"][cname]["data"] = {k: v for k, v in prog["classes"][cname]["data"].items() if k.startswith("L")}
+    var = rng.choice(pg.VAR_NAMES)
+    prog["page_ctx"].setdefault(var, f"P.{var}")
+    site = 9000 + rng.randrange(900)
+    prog["page_ctx"][f"L{site}"] = [f"L{site}.{var}#0", f"L{site}.{var}#1"][: rng.choice([1, 2])]
+    fill = ["fill", ["lit", rng.choice(names)], [["var", var]], None, None]
+    prog["page"].append(["comp", cname, {}, ["fills", [["for", var, ["var", f"L{site}"], site, [fill]]]]])
+
+
 def gen(rng):
     for _ in range(12):
         prng = random.Random(rng.random())
         prog = pg.ProgGen(prng, "scope").program()
+        if prng.random() < 0.15:
+            add_between_collision(prog, prng)
         if all(e1run.reference(prog, m)[0] != "unspec" for m in ("django", "isolated")):
             return prog
     return None
